@@ -79,6 +79,9 @@ struct Fixture {
     packed_ref_ops: usize,
     path: String,
     ops: Vec<Op>,
+    /// the first n_enum operations take part in the exhaustive enumeration; the rest (hostile
+    /// unknown names) only in random and concurrent histories and on a fresh handle
+    n_enum: usize,
     truth: HashMap<Op, Res>,
     p: Params,
     set: SampleSet,
@@ -199,13 +202,48 @@ fn make_fixture_once(dir: &str, seed: u64, which: u64, many: bool, attempt: u64)
     }
     let mut seen = HashSet::new();
     ops.retain(|o| seen.insert(o.clone()));
+    let n_enum = ops.len();
+    // unknown names of unusual shape: empty, very long, non-ASCII (multi-byte characters across
+    // any byte position an implementation might cut at), control characters, a known name in
+    // another case or with a suffix
+    let wide = "\u{65e5}\u{672c}".repeat(40);
+    let hostile: Vec<String> = vec![
+        String::new(),
+        "x".repeat(300),
+        wide.clone(),
+        format!("a{}", wide),
+        format!("{}\u{e9}", "n".repeat(63)),
+        "no\0such".to_string(),
+        "no\nsuch\tname".to_string(),
+        format!("{} ", first),
+        first.to_lowercase() + "~",
+        "\u{1f9ec}".to_string(),
+    ];
+    for (hi, hname) in hostile.iter().enumerate() {
+        match hi % 5 {
+            0 => ops.push(Op::GetSample(hname.clone())),
+            1 => ops.push(Op::GetContig(first.clone(), hname.clone())),
+            2 => ops.push(Op::GetLength(hname.clone(), fc.clone())),
+            3 => ops.push(Op::GetRange(first.clone(), hname.clone(), 0, 5)),
+            _ => ops.push(Op::ListContigs(hname.clone())),
+        }
+        if hi % 2 == 0 {
+            ops.push(Op::GetContig(hname.clone(), hname.clone()));
+            ops.push(Op::ListPrefix(hname.clone()));
+        } else {
+            ops.push(Op::SegDesc(hname.clone(), fc.clone()));
+            ops.push(Op::ByPrefix(hname.clone()));
+        }
+    }
+    let mut seen = HashSet::new();
+    ops.retain(|o| seen.insert(o.clone()));
     // ground truth: every op on its own fresh handle
     let mut truth = HashMap::new();
     for op in &ops {
         let mut d = drive::open(&path).map_err(|e| format!("open failed: {:#}", e))?;
         truth.insert(op.clone(), apply(&mut d, op));
     }
-    Ok(Fixture { raw_ref_ops, packed_ref_ops, path, ops, truth, p, set })
+    Ok(Fixture { raw_ref_ops, packed_ref_ops, path, ops, n_enum, truth, p, set })
 }
 
 fn history_json(h: &[&Op]) -> String {
@@ -261,8 +299,10 @@ pub fn run(args: &Args, rep: &mut Report) {
                 }
             }
         }
-        let nops = fx.ops.len();
+        let nops = fx.n_enum;
+        let nops_all = fx.ops.len();
         if args.shard == 0 {
+            rep.count("operations_with_hostile_unknown_names", (nops_all - nops) as u64);
             rep.count("fixtures_with_raw_stored_reference_ops", (fx.raw_ref_ops > 0) as u64);
             rep.count("fixtures_with_compressed_reference_ops", (fx.packed_ref_ops > 0) as u64);
         }
@@ -302,7 +342,7 @@ pub fn run(args: &Args, rep: &mut Report) {
             }
             let mut rng = Rng::derive(args.seed, 0xC08A + f, i);
             let l = if rng.chance(1, 2) { rng.usize(3, 4) } else { rng.usize(5, 40) };
-            let h: Vec<&Op> = (0..l).map(|_| &fx.ops[rng.usize(0, nops - 1)]).collect();
+            let h: Vec<&Op> = (0..l).map(|_| &fx.ops[rng.usize(0, nops_all - 1)]).collect();
             rep.evaluations += 1;
             rep.count("histories_random", 1);
             if let Err((_, w)) = run_history(&fx, &h, &mut states) {
@@ -318,7 +358,7 @@ pub fn run(args: &Args, rep: &mut Report) {
             }
             let mut rng = Rng::derive(args.seed, 0xC08B + f, c);
             let nthreads = rng.usize(2, 8);
-            let hists: Vec<Vec<usize>> = (0..nthreads).map(|_| (0..rng.usize(3, 20)).map(|_| rng.usize(0, nops - 1)).collect()).collect();
+            let hists: Vec<Vec<usize>> = (0..nthreads).map(|_| (0..rng.usize(3, 20)).map(|_| rng.usize(0, nops_all - 1)).collect()).collect();
             let base = match drive::open(&fx.path) {
                 Ok(d) => d,
                 Err(_) => continue,
@@ -371,6 +411,9 @@ pub fn run(args: &Args, rep: &mut Report) {
                 (vec!["inspect".into(), fx.path.clone(), "-s".into()], true),
                 (vec!["inspect".into(), fx.path.clone(), "--segment-layout".into()], true),
                 (vec!["ctglen".into(), fx.path.clone(), "-s".into(), "nosuch".into(), "-c".into(), "x".into()], false),
+                (vec!["getset".into(), fx.path.clone(), "\u{65e5}\u{672c}".repeat(40)], false),
+                (vec!["listctg".into(), fx.path.clone(), format!("{}\u{e9}", "n".repeat(63))], false),
+                (vec!["ctglen".into(), fx.path.clone(), "-s".into(), first.clone(), "-c".into(), format!("a{}", "\u{65e5}".repeat(40))], false),
             ];
             for (argv, should_succeed) in runs {
                 let o = cli::run(std::process::Command::new(ragc).args(&argv), cli::TIMEOUT);
